@@ -106,6 +106,34 @@ if __name__ == "__main__":
         else:
             a = a[1:]
     if cmd == "verify":
-        print(json.dumps(verify(sdir), indent=1))
+        out = verify(sdir)
+        json.dump(out, open(os.path.join(sdir, "verify.json"), "w"), indent=1)
+        print(json.dumps(out, indent=1))
+    elif cmd == "table":
+        rows = ["| id | property | what the change is | needs | confirmed | detected by (quick check) |", "|---|---|---|---|---|---|"]
+        for d in sorted(os.listdir(sdir)):
+            mp = os.path.join(sdir, d, "meta.json")
+            if not os.path.exists(mp):
+                continue
+            m = json.load(open(mp))
+            v = json.load(open(os.path.join(sdir, d, "verify.json"))) if os.path.exists(os.path.join(sdir, d, "verify.json")) else {}
+            det = json.load(open(os.path.join(sdir, d, "detect.json"))) if os.path.exists(os.path.join(sdir, d, "detect.json")) else {}
+            ds = []
+            for p_, r_ in det.items():
+                if r_["exit"] == 1:
+                    how = "oracle input" if not any("no-failing-input-found" in l for l in r_["lines"]) else "broken correspondence/proof, no-failing-input-found"
+                    ds.append(f"{p_}: VIOLATION ({how})")
+                else:
+                    ds.append(f"{p_}: not detected (exit {r_['exit']})")
+            rows.append(f"| {d} | {m.get('property')} | {str(m.get('summary'))[:160]} | {str(m.get('needs'))[:160]} | {v.get('confirmed')} | {'; '.join(ds)} |")
+        open(os.path.join(sdir, "README.md"), "w").write("# Seeded changes and which checks catch them\n\n" + "\n".join(rows) + "\n")
+        print("\n".join(rows))
     else:
-        print(json.dumps(detect(sdir, tier, props), indent=1, default=str)[:6000])
+        out = detect(sdir, tier, props)
+        old = {}
+        dp = os.path.join(sdir, "detect.json")
+        if os.path.exists(dp):
+            old = json.load(open(dp))
+        old.update(out)
+        json.dump(old, open(dp, "w"), indent=1, default=str)
+        print(json.dumps(out, indent=1, default=str)[:6000])
